@@ -15,6 +15,7 @@ META = {
                    "own graceful_shutdown (no self-recursion) and a connection still sniffing is cancelled, ReadVersion::poll reporting the cancellation before reading; "
                    "(C07.6) CloseSender::send drops the watch receiver and the CloseReciever future awaits Sender::closed; (E-WAKER) on the server's poll functions."
                    " New: C07.7 - the shutdown broadcast is level-triggered (watch channels; no Notify::notify_waiters in the server), so a connection spawned but not yet polled still sees the signal."
+                   " C07.4 also decides `pending-hears-signal`: every Pending answer of GracefulConnectionDriver::poll is chosen behind the Pending edge of a poll of the shutdown future that received the task context (an idle keep-alive connection is woken by nothing else); for a slot emptied on the Ready edge one such answer is required."
                    " As built now: C07.1 - C07.3 are also decided as one trace table of GracefulShutdown::poll (gstable.py: polls of the signal / the all-closed future / poll_once as nondeterministic steps, 28 (trace, result) pairs compared with a reference model of the loop).",
     "trusted_base": ["rustc type/borrow checker", "hyper finishes in-flight exchanges after graceful_shutdown and closes idle keep-alive connections", "tokio watch::Sender::closed resolves when all receivers are dropped",
                      "the executor keeps spawned connection tasks running after the serving future completes"],
